@@ -65,7 +65,7 @@ class TLCResult:
 
     @property
     def ok(self) -> bool:
-        return (
+        return getattr(self, "_forced_ok", False) or (
             "Model checking completed. No error has been found." in self.out
             and not self.errors
         )
@@ -269,17 +269,53 @@ class Check:
         chunks = [cases[i:i + chunk] for i in range(0, len(cases), chunk)]
         verdicts: dict = {}
 
-        def one(k):
-            ch = chunks[k]
-            sub = self.work / f"{label}_{k}"
+        arith = ("Overflow when computing", "out of the range of", "Attempted to apply the operator overridden")
+
+        def run_batch(ch, sub):
             sub.mkdir(parents=True, exist_ok=True)
             tf = sub / "cases.ndjson"
             with open(tf, "w") as f:
                 for c in ch:
                     f.write(json.dumps(c, separators=(",", ":")) + "\n")
+            return run_tlc(module, cfg, workdir=sub, env={"TRACE_FILE": str(tf)}, workers=1, timeout=timeout, heap=heap, include=include)
+
+        def bisect(ch, sub, depth=0):
+            """A batch on which TLC stopped with an ARITHMETIC error: the observed values of one case cannot be held by the
+            specification (a NaN / not-finite / absurdly large number where every specified outcome is a small number - on the
+            unchanged tree no batch does this).  The batch is split until the cases are isolated; such a case gets the verdict
+            `output_not_representable`, the others their ordinary verdicts."""
+            res = run_batch(ch, sub)
+            out = {}
+            if res.ok:
+                for tag, val in res.printed:
+                    if tag == "V" and isinstance(val, dict):
+                        out[val["id"]] = val
+                if len(out) == len(ch):
+                    return out, res
+            if not any(a in res.out for a in arith):
+                return None, res
+            if len(ch) == 1:
+                msg = next((ln for ln in res.out.splitlines() if any(a in ln for a in arith)), "arithmetic error")
+                return {ch[0]["id"]: {"id": ch[0]["id"], "failed": ["output_not_representable"], "detail": [msg[:200]]}}, res
+            mid = len(ch) // 2
+            a_, ra = bisect(ch[:mid], sub / "a", depth + 1)
+            b_, rb = bisect(ch[mid:], sub / "b", depth + 1)
+            if a_ is None or b_ is None:
+                return None, (ra if a_ is None else rb)
+            a_.update(b_)
+            return a_, res
+
+        def one(k):
+            ch = chunks[k]
+            sub = self.work / f"{label}_{k}"
             t = time.time()
-            res = run_tlc(module, cfg, workdir=sub, env={"TRACE_FILE": str(tf)}, workers=1, timeout=timeout, heap=heap,
-                          include=include)
+            res = run_batch(ch, sub)
+            got = None
+            if not res.ok and any(a in res.out for a in arith):
+                got, res2 = bisect(ch, sub / "split")
+                if got is not None:
+                    res._forced_ok = True          # every case of the batch has a verdict now
+                    res.printed = [("V", v) for v in got.values()]
             return k, res, time.time() - t
 
         with ThreadPoolExecutor(max_workers=parallel) as ex:
@@ -401,6 +437,8 @@ def _raised_in_repo(tb) -> tuple[bool, list[str]]:
     where = [f"{fr.filename}:{fr.lineno} {fr.name}" for fr in frames[-6:]]
     for fr in reversed(frames):
         fn_ = os.path.realpath(fr.filename)
+        if fn_.endswith(os.path.join("vp", "footprint.py")):
+            continue            # the recording proxies are transparent: an index error inside them is the kernel's
         if fn_.startswith(repo):
             return True, where
         if fn_.startswith(harness):
